@@ -56,7 +56,9 @@ def Op.targets : Op → List Nat
   | .upd d _ _ _ => [d]
   | .names s _ _ | .types s _ _ | .data s _ _ | .schema s _ _ _ | .restrict s _ | .rename s _ _
   | .del s _ | .addns s _ _ | .clear s | .setdef s _ _ | .deldef s _ | .defaults s _
-  | .reqadd s _ | .reqdisc s _ => [s]
+  | .reqadd s _ | .reqdisc s _ | .defupd s _ | .defclear s | .reqremove s _ | .reqclear s
+  | .requpd s _ | .reqsub s _ | .reqand s _ | .reqassign s _ => [s]
+  | .defupdfrom d _ | .defassignfrom d _ => [d]
   | .copy _ d => [d]
   | .pickle _ d => [d]
   | .val .. | .qschema .. | .qjson .. | .qsimple .. | .qmisc .. => []
@@ -196,6 +198,63 @@ theorem step_Inv (w : World) (op : Op) (hw : w.Inv) : (step w op).1.Inv := by
     · rename_i g hg
       exact World.Inv_put w s _ hw (Inv_reqDiscard g n (hw s g hg))
     · exact hw
+  | defupd s l =>
+    simp only [step]
+    split
+    · rename_i g hg
+      exact World.Inv_put w s _ hw (Inv_updateDefaults g l (hw s g hg))
+    · exact hw
+  | defupdfrom d s =>
+    simp only [step]
+    split
+    · rename_i gd gs hd hs
+      exact World.Inv_put w d _ hw (Inv_updateDefaults gd gs.defaults (hw d gd hd))
+    · exact hw
+  | defassignfrom d s =>
+    simp only [step]
+    split
+    · rename_i gd gs hd hs
+      exact Inv_liftE w d _ hw (fun g' h => Inv_assignDefaults gd g' gs.defaults (hw d gd hd) h)
+    · exact hw
+  | defclear s =>
+    simp only [step]
+    split
+    · rename_i g hg
+      exact World.Inv_put w s _ hw (Inv_clearDefaults g (hw s g hg))
+    · exact hw
+  | reqremove s n =>
+    simp only [step]
+    split
+    · rename_i g hg
+      exact Inv_liftE w s _ hw (fun g' h => Inv_reqRemove g g' n (hw s g hg) h)
+    · exact hw
+  | reqclear s =>
+    simp only [step]
+    split
+    · rename_i g hg
+      exact World.Inv_put w s _ hw (Inv_reqClear g (hw s g hg))
+    · exact hw
+  | requpd s l =>
+    simp only [step]
+    split
+    · rename_i g hg
+      exact World.Inv_put w s _ hw (Inv_reqUpdate g l (hw s g hg))
+    · exact hw
+  | reqsub s l =>
+    simp only [step]
+    split
+    · rename_i g hg
+      exact World.Inv_put w s _ hw (Inv_reqSub g l (hw s g hg))
+    · exact hw
+  | reqand s l =>
+    simp only [step]
+    split
+    · rename_i g hg
+      exact World.Inv_put w s _ hw (Inv_reqAnd g l (hw s g hg))
+    · exact hw
+  | reqassign s l =>
+    simp only [step]
+    split <;> exact hw
   | val s data =>
     simp only [step]
     split
@@ -270,6 +329,33 @@ theorem step_frame (w : World) (op : Op) (hw : w.Inv) (j : Nat) (hj : j ∉ op.t
     simp only [step]
     split
     · rw [World.pub_put_other w s j _ hjs]
+    · rfl
+  | defupd s l | defclear s | reqclear s | requpd s l | reqsub s l | reqand s l =>
+    have hjs : j ≠ s := by simpa [Op.targets] using hj
+    simp only [step]
+    split
+    · rw [World.pub_put_other w s j _ hjs]
+    · rfl
+  | reqremove s n =>
+    have hjs : j ≠ s := by simpa [Op.targets] using hj
+    simp only [step]
+    split
+    · rw [frame_liftE w s j _ hjs]
+    · rfl
+  | reqassign s l =>
+    simp only [step]
+    split <;> rfl
+  | defupdfrom d s =>
+    have hjd : j ≠ d := by simpa [Op.targets] using hj
+    simp only [step]
+    split
+    · rw [World.pub_put_other w d j _ hjd]
+    · rfl
+  | defassignfrom d s =>
+    have hjd : j ≠ d := by simpa [Op.targets] using hj
+    simp only [step]
+    split
+    · rw [frame_liftE w d j _ hjd]
     · rfl
   | copy s d =>
     have hjd : j ≠ d := by simpa [Op.targets] using hj
